@@ -65,6 +65,24 @@ def derive234 (P : Prims) (c : Cfg) (paddedUser paddedOwner tail : Bytes) : Byte
   let key := alg2Key P c paddedUser o
   (o, alg45U P c key tail, key)
 
+/-- ISO 32000-2 Algorithm 2.B, written from the standard: rounds are numbered from 0; after round
+    `i` has been done (`i ≥ 63`) the loop stops as soon as the last byte of E, as an unsigned
+    integer, is at most `i - 32`; the first 32 bytes of K are the result.
+    `done` = number of rounds done so far, `last` = last byte of the most recent E. -/
+def alg2BLoop (P : Prims) (pw udata : Bytes) : Nat → Nat → Nat → Bytes → Option Bytes
+  | 0, _, _, _ => none
+  | fuel + 1, done, last, k =>
+    if done ≥ 64 ∧ last + 32 ≤ done then some (k.take 32)
+    else
+      let k1 := repeatBytes (pw ++ k ++ udata) 64
+      let e := P.aesEnc (k.take 16) ((k.drop 16).take 16) k1
+      let m : Nat := (e.take 16).foldl (fun acc b => (acc * 256 + b.toNat) % 3) 0   -- big-endian integer mod 3
+      let k' := if m = 0 then P.sha256 e else if m = 1 then P.sha384 e else P.sha512 e
+      alg2BLoop P pw udata fuel (done + 1) (e.getLastD 0).toNat k'
+
+def alg2B (P : Prims) (pw salt udata : Bytes) : Bytes :=
+  (alg2BLoop P pw udata R6_FUEL 0 0 (P.sha256 (pw ++ salt ++ udata))).getD []
+
 /-- Algorithm 2.B (revision 6) / SHA-256 (revision 5). -/
 def hash56 (P : Prims) (r : Int) (pw salt udata : Bytes) : Bytes := passwordHash P r pw salt udata
 
